@@ -498,9 +498,20 @@ inductive Step
   | next (c : Conn)
   | halt (c : Conn) (r : PRes)
 
-/-- handler fuel passed by `pollConn` -/
+/-- the SCRIPT-INDEPENDENT part of the handler fuel passed by `pollConn`; the fuel actually passed for a connection
+`c` in phase `handler r h` is `handlerFuel c.env r + scriptOf c` (`scriptOf c = scriptCost h`: the model's fuel
+pays for what is left of the handler script, `Props/C07ScriptFuel.lean`) -/
 def handlerFuel (e : Env) (r : AReq) : Nat :=
   1000 + e.tr.input.length * 4 + (e.segs.map (·.2.length)).sum * 4 + r.sp.cap * 4
+
+/-- the script-dependent part of the handler fuel, read off the connection's phase -/
+def scriptOf (c : Conn) : Nat :=
+  match c.phase with
+  | .handler _ h => scriptCost h
+  | _ => 0
+
+theorem scriptOf_handler {c : Conn} {r : AReq} {h : HState} (hp : c.phase = .handler r h) :
+    scriptOf c = scriptCost h := by simp [scriptOf, hp]
 
 /-- The body of `pollConn` with the recursive calls replaced by `.next`. -/
 def stepConn (c : Conn) : Step :=
@@ -542,7 +553,7 @@ def stepConn (c : Conn) : Step :=
               let hs : HState := { ops := ops, propagate := prop }
               .next { c with phase := .handler r hs, scripts := scripts, env := env' }
   | .handler r h =>
-    match handlerPoll (1000 + c.env.tr.input.length * 4 + (c.env.segs.map (·.2.length)).sum * 4 + r.sp.cap * 4) r h c.env with
+    match handlerPoll (1000 + c.env.tr.input.length * 4 + (c.env.segs.map (·.2.length)).sum * 4 + r.sp.cap * 4 + scriptCost h) r h c.env with
     | (r, h, e, .pending) => .halt { c with phase := .handler r h, env := e } .pending
     | (_, _, e, .panic s) => .halt { c with env := e } (.panic s)
     | (r, h, e, .done res) =>
@@ -1977,21 +1988,6 @@ theorem pollFlush_panic {w : Writer} {me : Nat} {m : MutexSt} {t : Transport}
     | cases h
 
 /-! ## Handler-interpreter fuel (scripts without `readAll`) -/
-
-def opCost : HOp → Nat
-  | .writeAll _ data => data.length + 1
-  | _ => 1
-
-def curCost (sub : HSub) (op : HOp) : Nat :=
-  match sub, op with
-  | .writeRest rd, .writeAll _ _ => rd.length + 1
-  | _, op => opCost op
-
-/-- fuel a script needs: one unit per op, plus one per byte of a `writeAll` -/
-def scriptCost (h : HState) : Nat :=
-  match h.ops with
-  | [] => 0
-  | op :: rest => curCost h.sub op + (rest.map opCost).sum
 
 def noReadAll (ops : List HOp) : Prop := ∀ op ∈ ops, op ≠ .readAll
 
